@@ -2,6 +2,7 @@ import Ruint.Lemmas.Add
 import Ruint.Lemmas.GenUintWrap
 import Ruint.Lemmas.GenUint
 import Ruint.Lemmas.GenBinOps
+import Ruint.Lemmas.GenFolds
 
 /-!
 # C01 — addition, subtraction and negation are exact in the ring mod 2^BITS
@@ -312,5 +313,20 @@ theorem gen_add_sub_operator_shapes (f bits L : Nat) (a b : List Nat) :
       ∧ Ruint.Gen.op_sub_ref_val f bits L a b = Ruint.Gen.uint_wrapping_sub f bits L a b
       ∧ Ruint.Gen.op_sub_ref_ref f bits L a b = Ruint.Gen.uint_wrapping_sub f bits L a b) :=
   ⟨Ruint.GenBinOps.add_shapes f bits L a b, Ruint.GenBinOps.sub_shapes f bits L a b⟩
+
+/-- iterator `Sum` (by value and by reference: `iter.fold(Self::ZERO, Self::wrapping_add)`) as regenerated from `src/add.rs`
+    equals the model of `sum_spec` on every list of canonical values. -/
+theorem gen_sum_eq (bits : ℕ) (hN : nlimbs bits < 2 ^ 64) (l : List (List ℕ)) (hl : ∀ x ∈ l, Canon bits x) :
+    Ruint.Gen.uint_sum (nlimbs bits + 1) bits (nlimbs bits) l = sum bits l
+    ∧ Ruint.Gen.uint_sum_ref (nlimbs bits + 1) bits (nlimbs bits) l = sum bits l := by
+  have key : List.foldl (fun acc_ x_ => Ruint.Gen.uint_wrapping_add (nlimbs bits + 1) bits (nlimbs bits) acc_ x_)
+      (List.replicate (nlimbs bits) 0) l = List.foldl (wrappingAdd bits) (zero bits) l := by
+    have hz : List.replicate (nlimbs bits) 0 = zero bits := rfl
+    rw [hz]
+    exact Ruint.GenFolds.foldl_congr_canon (Canon bits) _ _
+      (fun a x ha hx => (wrapping_add_spec bits a x ha hx).1)
+      (fun a x ha hx => Ruint.GenUintWrap.wrapping_add_eq bits hN a x ha.1 hx.1 ha.2.1 hx.2.1)
+      l (zero bits) (Ruint.Add.zero_canon bits).1 hl
+  exact ⟨key, key⟩
 
 end Ruint.C01
